@@ -20,7 +20,7 @@ pub(crate) struct EventAccessTracker
     data_entity: Entity,
 
     /// Reaction information cached for when the reaction system actually runs.
-    prepared: Vec<(SystemCommand, Entity)>,
+    prepared: Vec<(u64, Entity)>,
 }
 
 impl EventAccessTracker
@@ -29,16 +29,16 @@ impl EventAccessTracker
     pub(crate) fn verif_state(&self) -> (usize, bool) { (self.prepared.len(), self.currently_reacting) }
 
     /// Caches metadata for an entity reaction.
-    pub(crate) fn prepare(&mut self, system: SystemCommand, data_entity: Entity)
+    pub(crate) fn prepare(&mut self, ticket: u64, data_entity: Entity)
     {
-        self.prepared.push((system, data_entity));
+        self.prepared.push((ticket, data_entity));
     }
 
     /// Sets metadata for the current entity reaction.
-    pub(crate) fn start(&mut self, reactor: SystemCommand)
+    pub(crate) fn start(&mut self, ticket: u64)
     {
-        let Some(pos) = self.prepared.iter().position(|(s, _)| *s == reactor) else {
-            tracing::error!("prepared event reaction is missing {:?}", reactor);
+        let Some(pos) = self.prepared.iter().position(|(t, _)| *t == ticket) else {
+            tracing::error!("prepared event reaction is missing for ticket {:?}", ticket);
             debug_assert!(false);
             return;
         };
